@@ -45,13 +45,25 @@ static void dump(const vo_t& s, Out& o) {
   o.R((I)s.get_n()); o.R((I)s.get_k()); o.R((I)s.get_num_samples());
   o.R((I)s.h_); o.R((I)s.r_);
   o.R(s.r_ == 0 ? (I)0 : vh::dbits(s.total_wt_r_));
-  std::vector<std::pair<int64_t, uint64_t>> v;
+  // the samples are walked four ways (++it, it++, *it++, range-for); a walk that deviates from the plain one is reported instead of it
+  typedef std::vector<std::pair<int64_t, uint64_t>> walk_t;
+  walk_t v, post, deref, rfor;
   for (auto it = s.begin(); it != s.end(); ++it) {
     auto p = *it;
     v.push_back(std::make_pair(p.first, (uint64_t)vh::dbits(p.second)));
   }
-  std::sort(v.begin(), v.end());
-  for (auto& p : v) { o.R((I)p.first); o.R((I)p.second); }
+  for (auto it = s.begin(); it != s.end(); it++) {
+    auto p = *it;
+    post.push_back(std::make_pair(p.first, (uint64_t)vh::dbits(p.second)));
+  }
+  for (auto it = s.begin(); it != s.end(); ) {
+    auto p = *it++;
+    deref.push_back(std::make_pair(p.first, (uint64_t)vh::dbits(p.second)));
+  }
+  for (auto p : s) rfor.push_back(std::make_pair(p.first, (uint64_t)vh::dbits(p.second)));
+  std::sort(v.begin(), v.end()); std::sort(post.begin(), post.end()); std::sort(deref.begin(), deref.end()); std::sort(rfor.begin(), rfor.end());
+  const walk_t& shown = post != v ? post : (deref != v ? deref : (rfor != v ? rfor : v));
+  for (auto& p : shown) { o.R((I)p.first); o.R((I)p.second); }
 }
 
 static void handler(const Line& t, Out& o) {
